@@ -718,7 +718,14 @@ def r12_copy_and_clone_of_references_agree(ctx):
     ctx.floor('C08.R12', 'arms of implements_trait whose Copy answer depends on is_mutable', n, 1)
 
 
+def r13_checkers_see_the_policies_the_user_wrote(ctx):
+    from .c19 import r13_reader_hands_on_what_it_parsed
+    r13_reader_hands_on_what_it_parsed(ctx, 'C08.R13', 'shared with C19.R13 — the checkers (Clone for clone_if_necessary, lifecycles, unused components) only see what the attribute reader '
+                                       'hands on. ')
+
+
 def check(ctx):
+    r13_checkers_see_the_policies_the_user_wrote(ctx)
     r12_copy_and_clone_of_references_agree(ctx)
     r11_lookahead_is_consumed(ctx)
     r10_checkers_see_the_current_sources(ctx)
